@@ -197,6 +197,26 @@ def check(run, ctx):
             run.finding(I7, f.name, f"skips:{bad}", f"{f.name} can return a non-True verdict without consulting {bad}", f.loc)
         else:
             run.ok(I7, f.name, f"all of {names} consulted before a non-True verdict")
+    # ------------------------------------------------------------- I8
+    I8 = run.rule("I8", "the catch-all test `'*' in X` is a membership test in a collection of whole rule names, never a substring test in text", floor=1,
+                  decides="only the bare `*` (bare ignore) silences every rule; `prefix.*` silences its prefix only")
+    n_i8 = 0
+    for f in sorted(repo.funcs.values(), key=lambda x: x.qual):
+        if not f.module.name.startswith(("src.linter_config.", "src.core.violation_utils", "src.core.rule_aliases")) and "ignore" not in f.module.name:
+            continue
+        for n in ast.walk(f.node):
+            if not (isinstance(n, ast.Compare) and len(n.ops) == 1 and isinstance(n.ops[0], (ast.In, ast.NotIn)) and isinstance(n.left, ast.Constant) and n.left.value == "*"):
+                continue
+            n_i8 += 1
+            kind = _static_kind(f, n.comparators[0])
+            sym = f"{f.qual.replace('src.', '', 1)}:{norm(n)}"
+            if kind == "collection":
+                run.ok(I8, sym, "right operand is a set/list of rule names")
+            elif kind == "str":
+                run.finding(I8, f.qual.replace("src.", "", 1), f"substring-star:{norm(n)}", f"`{norm(n)}` tests for the character '*' inside text: a directive naming `prefix.*` is then taken for the bare catch-all and silences every rule in its scope", f"{f.module.rel}:{n.lineno}")
+            else:
+                run.undecided(I8, sym, "operand type not determined")
+    run.require(n_i8 >= 1, "no `'*' in <rules>` catch-all test found in the ignore machinery")
     run.extra["call_resolution"] = f"{cg.n_resolved}/{cg.n_calls}"
     run.extra["rule_classes"] = len(L.rules)
     run.extra["violation_construction_sites"] = len(sinks)
@@ -230,3 +250,34 @@ def _marker_row(f):
             subjects.add(ast.unparse(n.func.value))
     fold = bool(subjects) and all(s in lowered or s.endswith(".lower()") for s in subjects)
     return prefixes, tools, fold
+
+
+
+def _static_kind(f, e: ast.expr) -> str:
+    """'str' / 'collection' / '?' for a name in function f, from its parameter annotation or its (single-form) local assignments."""
+    STR_CALLS = {"join", "strip", "lower", "upper", "group", "format", "replace", "lstrip", "rstrip", "str"}
+    COLL_CALLS = {"split", "set", "list", "frozenset", "sorted", "tuple", "findall", "keys", "values"}
+    if isinstance(e, (ast.Set, ast.List, ast.Tuple, ast.SetComp, ast.ListComp, ast.Dict)):
+        return "collection"
+    if isinstance(e, (ast.JoinedStr,)) or (isinstance(e, ast.Constant) and isinstance(e.value, str)):
+        return "str"
+    if isinstance(e, ast.Call):
+        nm = call_name(e)
+        return "str" if nm in STR_CALLS else "collection" if nm in COLL_CALLS else "?"
+    if isinstance(e, ast.Name):
+        for a in f.node.args.posonlyargs + f.node.args.args + f.node.args.kwonlyargs:
+            if a.arg == e.id and a.annotation is not None:
+                t = ast.unparse(a.annotation).replace("typing.", "")
+                if t.split("[")[0].split("|")[0].strip() in ("set", "list", "frozenset", "tuple", "Set", "List", "Iterable", "Sequence", "Collection", "AbstractSet"):
+                    return "collection"
+                if t.split("|")[0].strip() == "str":
+                    return "str"
+        kinds = set()
+        for n in ast.walk(f.node):
+            if isinstance(n, (ast.Assign, ast.AnnAssign)) and n.value is not None:
+                for t in (n.targets if isinstance(n, ast.Assign) else [n.target]):
+                    if isinstance(t, ast.Name) and t.id == e.id:
+                        kinds.add(_static_kind(f, n.value))
+        if len(kinds) == 1:
+            return kinds.pop()
+    return "?"
